@@ -145,8 +145,12 @@ impl<'r, R: ReadValue> Field<'r, R> {
         match self.value {
             FieldValue::Len(len) => {
                 self.consume_field()?;
+                let Some(reader) = self.reader.sub_message(len) else {
+                    return Err(ProtobufError::new(ErrorKind::MessageTooDeep)
+                        .with_context(self.context, Some(self.number)));
+                };
                 Ok(Fields {
-                    reader: self.reader.sub_limit(len),
+                    reader,
                     context,
                     unconsumed_field: None,
                 })
